@@ -49,7 +49,7 @@ CONFIG = {
                   'thorough': {'c06.meta': 60000, 'c06.hashseed': 4000}},
     'must_sig': ['tau:bijection', 'tau:containers', 'tau:atoms',
                  'tau:unreachable', 'tau:shuffle', 'tau:retype',
-                 'tau:distinct_objects', 'tau:atoms_long',
+                 'tau:distinct_objects', 'tau:atoms_long', 'tau:atoms_related',
                  'logic:CTL', 'logic:LTL', 'logic:CTLS', 'bulk:CTL'],
     'rule': ('cases = (structure, formula, logic) from a seeded list; each '
              'evaluated under every hash seed of the run (fresh interpreter '
@@ -313,11 +313,17 @@ def transformations(r, logic, nk, t):
         # same long stem for every atom: names differ only at the very end
         ren = {a: 'atom%s_%d' % (pad, i) for i, a in enumerate(atoms)}
         LOG.sig['tau:atoms_long'] += 1
+    elif r.random() < 0.4:
+        # names related to each other: prefixes, case variants
+        rel = r.choice([['ab', 'abc', 'a', 'abcd'], ['Pp', 'pp', 'PP', 'pP'],
+                        ['x1', 'x10', 'x01', 'x'], ['Xa', 'X_a', 'aX', 'AX']])
+        ren = {a: rel[i % len(rel)] for i, a in enumerate(atoms)}
+        LOG.sig['tau:atoms_related'] += 1
     yield ('atoms', NK(nk.states, nk.succ,
                        [frozenset(ren[a] for a in l) for l in nk.labels]),
            rename_atoms(t, ren), {nk.states[i]: i for i in range(n)}, {})
     # 5 states unreachable from the original ones
-    k = r.randint(1, 3)
+    k = r.randint(1, 5)
     new = ['unreach_%d' % j if not isinstance(nk.states[0], int)
            else 5000 + j for j in range(k)]
     R = []
